@@ -341,6 +341,69 @@ class Fn:
         self._dom = None
         self._expr_cache = {}
 
+    def _thread_result_variants(self):
+        """After a helper returning `Result` was inlined at a `helper(..)?` site: each of its `return Err(e)` / `Ok(v)` stores
+        a known variant that then flows through a copy block into `Try::branch` and a switch on the ControlFlow
+        discriminant.  The outcome of that switch is known per return site, so each is connected directly to the
+        matching arm (`Continue(v)` / `Break(Err(e))` are built in place) -- as if the early returns still stood in the
+        caller.  Afterwards the sites behind the `?` are controlled by the helper's own tests again."""
+        blocks = self.blocks
+        n0 = len(blocks)
+        preds = {}
+        for pi in range(n0):
+            P = blocks[pi]
+            if not P['cu'] and P['t']['k'] == 'goto':
+                preds.setdefault(P['t']['t'], []).append(pi)
+        for b_i in range(n0):
+            B = blocks[b_i]
+            t = B['t']
+            if B['cu'] or t['k'] != 'call' or not t['fn'].endswith('Try>::branch') or 'Result' not in t['fn'] or len(t['a']) != 1 or len(t['d']) != 1 or B['s']:
+                continue
+            arg = op_local(t['a'][0])
+            S = blocks[t['t']] if isinstance(t['t'], int) and t['t'] >= 0 else None
+            if arg is None or S is None or S['t']['k'] != 'sw' or len(S['s']) != 1 or S['s'][0][1][0] != 'discr' or S['s'][0][1][1] != list(t['d']):
+                continue
+            arms = dict((v, tgt) for v, tgt in S['t']['ts'])
+            if 0 not in arms or 1 not in arms:
+                continue
+            for r_i in list(preds.get(b_i, ())):
+                R = blocks[r_i]
+                # R only copies the value on: `_a = move _v`
+                if len(R['s']) != 1 or R['s'][0][0] != [arg] or R['s'][0][1][0] != 'use' or op_local(R['s'][0][1][1]) is None:
+                    continue
+                v = op_local(R['s'][0][1][1])
+                for d_i in list(preds.get(r_i, ())):
+                    D = blocks[d_i]
+                    st = None
+                    for x in reversed(D['s']):
+                        if x[0] == [v]:
+                            st = x
+                            break
+                        if x[0][0] == v:
+                            break
+                    if st is None or st[1][0] != 'aggr' or st[1][1] != 'adt' or not st[1][3] and not str(st[1][2]).endswith('::Ok'):
+                        continue
+                    name = str(st[1][2])
+                    ln = st[2] if len(st) > 2 else None
+                    if name.endswith('Result::Ok') and len(st[1][3]) == 1:
+                        nb = {'cu': False, 's': [[list(t['d']), ['aggr', 'adt', 'std::ops::ControlFlow::Continue', [st[1][3][0]]], ln]], 't': {'k': 'goto', 't': arms[0]}}
+                    elif name.endswith('Result::Err') and len(st[1][3]) == 1:
+                        self.locals.append(['std::result::Result<std::convert::Infallible, _>', None])
+                        tmp = len(self.locals) - 1
+                        nb = {'cu': False, 's': [[[tmp], ['aggr', 'adt', 'std::result::Result::Err', [st[1][3][0]]], ln],
+                                                 [list(t['d']), ['aggr', 'adt', 'std::ops::ControlFlow::Break', [['m', [tmp]]]], ln]], 't': {'k': 'goto', 't': arms[1]}}
+                    else:
+                        continue
+                    blocks.append(nb)
+                    D['s'] = [x for x in D['s'] if x is not st]
+                    D['t'] = dict(D['t'], t=len(blocks) - 1)
+        self._succ = None
+        self._pred = None
+        self._defs = None
+        self._live = None
+        self._dom = None
+        self._expr_cache = {}
+
     def captures(self):
         """for a closure: expressions (in the parent's frame) of the captured operands, by index"""
         if self._captures is None:
@@ -1143,6 +1206,10 @@ class Facts:
         f.blocks[bi]['t'] = {'k': 'goto', 't': boff}
         try:
             f._thread_bool_constants()
+        except Exception:
+            pass
+        try:
+            f._thread_result_variants()
         except Exception:
             pass
 
@@ -1975,6 +2042,8 @@ def predicate_atoms(sw, fn=None, rich=False, only=None):
             leaf(x[3])
         elif x[0] in ('un', 'cast', 'discr', 'variant'):
             leaf(x[1] if x[0] != 'un' else x[2])
+        elif x[0] == 'index':
+            leaf(x[1])  # `s[i]`: an element of s
     if only is not None:
         leaf(only)
         return out
@@ -2220,7 +2289,17 @@ def control_terms(facts, fn, site, polar=True):
         t = fn.term(a)
         if t.get('exp') and any(k in t['exp'] for k in ('trace', 'debug', 'event', 'span', 'warn', 'error!', 'info!')):
             continue
+        # the test of a `for` loop (`iter.next()` of a std iterator) says how the elements are visited, not what is decided
+        # about them: `for &d in src` and `for i in 0..src.len() { let d = src[i]; .. }` differ only there
+        sj = strip(sw.subject)
+        if sw.kind == 'variant' and sj[0] == 'call' and sj[1].endswith('::next') and ('Iterator' in sj[1] or 'iter::' in sj[1]) and not sj[1].lstrip('<').startswith(('proto::', 'frame::', 'codec::', 'hpack::')):
+            continue
         at = predicate_atoms(sw, fn, rich=True)
+        # `s.is_empty()` of a std collection is `s.len() == 0`
+        empty_test = sw.kind == 'bool' and sj[0] == 'call' and sj[1].endswith('::is_empty') and bool(sj[2]) and \
+            not sj[1].lstrip('<').startswith(('proto::', 'frame::', 'codec::', 'hpack::', 'client::', 'server::', 'share::'))
+        if empty_test:
+            at = set(predicate_atoms(sw, fn, True, only=sj[2][0])) | {'const:0'}
         # `match x { 3 => .., 4 => .., _ => .. }` is the chain `x == 3`, `x == 4`: an integer switch is presented as
         # equality tests against its values (value arm: `x&const:v@eq`; default arm: `x&const:v@ne` for every value)
         int_vals = None
@@ -2261,6 +2340,8 @@ def control_terms(facts, fn, site, polar=True):
         term = '&'.join(sorted(base))
         if edges:
             pol = edge_polarity(sw, edges, fn)
+            if empty_test and pol in ('T', 'F'):
+                pol = 'eq' if pol == 'T' else 'ne'
             if pol and weak:
                 pol = '~' + pol
         if pol:
